@@ -272,6 +272,8 @@ def run(tier, seed, replay=None):
     dist["read-mutate-read probe: read-outs compared"] = n_stale
     import extremes
     extremes.run(V, random.Random(seed + 5), torch, torchtt, [("round(eps)", lambda x_: x_.round(1e-6), False, None)], dist, "round(eps)")
+    import qrcontract
+    qrcontract.run(V, random.Random(seed + 23), torch, torchtt, tier, dist, "round")
     nviol = V.finish()
     cov = proofcheck.coverage(PID, obl, translation=tr_cov, evaluations=n, distinct_nontrivial=len(set(json.dumps(m[0], sort_keys=True, default=str) for m in replay_meta)),
         rule=("x.round(eps, rmax) on TT tensors and TT matrices of order 1..7 built from cores: random, inflated (block-diagonal self-sum of an exactly low-rank tensor), "
